@@ -1,3 +1,374 @@
-/- Model for C14: not written yet -/
+/-
+Model of pkg/controller/reconciler/watchers.go: the per-kind event handlers
+(`hdlr.Create/Update/Delete/Generic`, the `add/upd/del` closures of the handler table, `compose`,
+`notify`), the predicates that decide which events are accepted, and `getChangedObjects`/`initCh`
+(the batch swap).  Core-only.
+
+Every handler and `getChangedObjects` run with `watchers.mu` held, so one handler call and one
+swap are ATOMIC steps of the model (`Op.ev`, `Op.swap`); an interleaving of the informer
+goroutines with reconciliations is a `List Op`.  The mutual exclusion itself is not proved here —
+it is exercised by the concurrent run of the harness under the Go race detector.
+
+Objects are abstracted to what the code looks at: kind, namespace/name (and the
+`kubernetes.io/service-name` label of an EndpointSlice), validity of the old/new object as
+answered by `services.IsValidResource`, "did the part watched by the kind's update predicate
+change", and for ConfigMaps an identifier of `.Data` (`none` = nil map).
+The object pointer appended to a typed list is identified by the event id plus old/new.
+-/
 namespace HapVerif.C14
+
+inductive Kind
+  | cm | svc | ep | eps | secret | pod | ing | ingcls
+  | gwA2 | gwclsA2 | hrA2 | gwB1 | gwclsB1 | hrB1 | gwV1 | gwclsV1 | hrV1 | tcpr
+  deriving DecidableEq, Repr
+
+/-- `types.ResourceType` values used by the handler table -/
+inductive Res
+  | configMap | service | endpoints | secret | pod | ingress | ingressClass
+  | gateway | gatewayClass | httpRoute | tcpRoute
+  deriving DecidableEq, Repr
+
+/-- change classification: typed list suffix (`Add/Upd/Del`) and description prefix (`add/update/del`) -/
+inductive Act | add | upd | del
+  deriving DecidableEq, Repr
+
+inductive EvT | create | update | delete | generic
+  deriving DecidableEq, Repr
+
+/-- the kinds whose handler fills `<Fam>{Add,Upd,Del}` of `ChangedObjects` -/
+inductive Fam | ing | gwA2 | gwclsA2 | gwB1 | gwclsB1
+  deriving DecidableEq, Repr
+
+structure Name where
+  ns : Option Nat        -- `none`: cluster scoped (empty namespace)
+  name : Nat
+  deriving DecidableEq, Repr
+
+abbrev Link := Res × Name
+abbrev Descr := Act × Res × Name
+
+/-- an element of a typed list: which list, and which object pointer (event id, old/new object) -/
+structure Entry where
+  fam : Fam
+  act : Act
+  id : Nat
+  old : Bool
+  deriving DecidableEq, Repr
+
+/-- the part of `config.Config` the watchers read.  `ConfigMapName = n0/o0`,
+`TCPConfigMapName = n0/o1`, `PublishService = n0/o0` when `publish`. -/
+structure Cfg where
+  epSlice : Bool := false
+  hasA2 : Bool := false
+  hasB1 : Bool := false
+  hasV1 : Bool := false
+  hasTCPR : Bool := false
+  publish : Bool := false
+  deriving DecidableEq, Repr
+
+structure Event where
+  id : Nat
+  kind : Kind
+  typ : EvT
+  ns : Option Nat
+  name : Nat
+  label : Option Nat := none   -- service-name label (read for EndpointSlice only)
+  vOld : Bool := true          -- IsValid…(old object); meaningful for updates
+  vNew : Bool := true          -- IsValid…(object) / IsValid…(new object)
+  changed : Bool := true       -- the kind's content predicate holds for this update
+  data : Option Nat := none    -- ConfigMap `.Data` of the (new) object
+  deriving DecidableEq, Repr
+
+inductive Op
+  | ev (e : Event)
+  | swap
+  deriving DecidableEq, Repr
+
+/-! ## handler table -/
+
+def Kind.res : Kind → Res
+  | .cm => .configMap | .svc => .service | .ep => .endpoints | .eps => .endpoints
+  | .secret => .secret | .pod => .pod | .ing => .ingress | .ingcls => .ingressClass
+  | .gwA2 => .gateway | .gwB1 => .gateway | .gwV1 => .gateway
+  | .gwclsA2 => .gatewayClass | .gwclsB1 => .gatewayClass | .gwclsV1 => .gatewayClass
+  | .hrA2 => .httpRoute | .hrB1 => .httpRoute | .hrV1 => .httpRoute
+  | .tcpr => .tcpRoute
+
+/-- `hdlr.full` -/
+def Kind.full : Kind → Bool
+  | .gwA2 | .gwclsA2 | .hrA2 | .gwB1 | .gwclsB1 | .hrB1 | .gwV1 | .gwclsV1 | .hrV1 | .tcpr => true
+  | _ => false
+
+def Kind.fam : Kind → Option Fam
+  | .ing => some .ing | .gwA2 => some .gwA2 | .gwclsA2 => some .gwclsA2
+  | .gwB1 => some .gwB1 | .gwclsB1 => some .gwclsB1
+  | _ => none
+
+/-- `getHandlers`: which handlers are registered -/
+def Kind.registered (c : Cfg) : Kind → Bool
+  | .gwA2 | .gwclsA2 | .hrA2 => c.hasA2
+  | .gwB1 | .gwclsB1 | .hrB1 => c.hasB1
+  | .gwV1 | .gwclsV1 | .hrV1 => c.hasV1
+  | .tcpr => c.hasTCPR
+  | _ => true
+
+/-- kinds whose predicate list has the Create/Delete/Update validity `predicate.Funcs` -/
+def Kind.validated : Kind → Bool
+  | .ing | .ingcls | .gwclsA2 | .gwclsB1 | .gwclsV1 => true
+  | _ => false
+
+/-- ConfigMap selector: `some true` = global ConfigMap, `some false` = TCP ConfigMap -/
+def cmSel (e : Event) : Option Bool :=
+  if e.ns = some 0 ∧ e.name = 0 then some true
+  else if e.ns = some 0 ∧ e.name = 1 then some false
+  else none
+
+/-- conjunction of the handler's predicates (`h.pr`), as applied by controller-runtime's
+source before the handler is called.  Generic events are fed to the handler directly. -/
+def accepts (c : Cfg) (e : Event) : Bool :=
+  e.kind.registered c &&
+  match e.typ with
+  | .generic => true
+  | .create =>
+    (match e.kind with
+     | .cm => (cmSel e).isSome
+     | .ep => !c.epSlice
+     | .eps => c.epSlice
+     | .pod => false
+     | _ => true) && (!e.kind.validated || e.vNew)
+  | .delete =>
+    (match e.kind with
+     | .cm => (cmSel e).isSome
+     | .ep => !c.epSlice
+     | .eps => c.epSlice
+     | _ => true) && (!e.kind.validated || e.vNew)
+  | .update =>
+    (match e.kind with
+     | .cm => (cmSel e).isSome
+     | .svc => e.changed || (c.publish && e.ns = some 0 && e.name = 0)
+     | .ep => !c.epSlice && e.changed
+     | .eps => c.epSlice && e.changed
+     | .secret => true
+     | _ => e.changed) && (!e.kind.validated || e.vOld || e.vNew)
+
+/-! ## accumulator -/
+
+/-- `types.ChangedObjects` as written by the watchers.  `typed` is the union of the 15 typed
+slices `<Fam><Act>` in append order (slice `<f><a>` = the sub-list with that fam/act);
+`links` is `Links` flattened to (resource, name) pairs (`Links[r]` = the names paired with `r`,
+in order). -/
+structure Batch where
+  gCur : Option Nat := none
+  gNew : Option Nat := none
+  tCur : Option Nat := none
+  tNew : Option Nat := none
+  typed : List Entry := []
+  full : Bool := false
+  objects : List Descr := []
+  links : List Link := []
+  deriving DecidableEq, Repr
+
+/-- `appenddedup` -/
+def appendDedup {α} [DecidableEq α] (l : List α) (x : α) : List α :=
+  if x ∈ l then l else l ++ [x]
+
+/-- `compose`: `h.name(obj)` (EndpointSlice: non-empty service-name label) else `obj.GetName()`,
+prefixed by the namespace when there is one -/
+def fullName (e : Event) : Name :=
+  { ns := e.ns, name := if e.kind = .eps then e.label.getD e.name else e.name }
+
+def linkOf (e : Event) : Link := (e.kind.res, fullName e)
+
+/-- the literal passed to `compose` by Create/Update/Delete -/
+def actOf : EvT → Act
+  | .create => .add | .update => .upd | .delete => .del | .generic => .upd
+
+def descrOf (e : Event) : Descr := (actOf e.typ, e.kind.res, fullName e)
+
+/-- the `add/upd/del` closures of the five families -/
+def entryOf (e : Event) : Option Entry :=
+  match e.kind.fam with
+  | none => none
+  | some f =>
+    match e.typ with
+    | .create => some ⟨f, .add, e.id, false⟩
+    | .delete => some ⟨f, .del, e.id, false⟩
+    | .update =>
+      if e.vOld && e.vNew then some ⟨f, .upd, e.id, false⟩
+      else if !e.vOld && e.vNew then some ⟨f, .add, e.id, false⟩
+      else if e.vOld && !e.vNew then some ⟨f, .del, e.id, true⟩
+      else none
+    | .generic => none
+
+/-- `cmChange` (ConfigMap `add`/`upd`; there is no `del`) -/
+def applyCm (b : Batch) (e : Event) : Batch :=
+  if e.kind = .cm ∧ (e.typ = .create ∨ e.typ = .update) then
+    match cmSel e with
+    | some true => { b with gNew := e.data }
+    | some false => { b with tNew := e.data }
+    | none => b
+  else b
+
+/-- one accepted event, under the mutex: closure, `compose`, `notify` -/
+def apply (b : Batch) (e : Event) : Batch :=
+  if e.typ = .generic then { b with full := true }
+  else
+    let b := applyCm b e
+    { b with
+      typed := b.typed ++ (entryOf e).toList
+      links := appendDedup b.links (linkOf e)
+      objects := appendDedup b.objects (descrOf e)
+      full := b.full || e.kind.full }
+
+/-- watchers state: the accumulating `w.ch` and the items given to `q.AddRateLimited`
+(`rparam.fullsync`), oldest first -/
+structure St where
+  ch : Batch := {}
+  q : List Bool := []
+  deriving DecidableEq, Repr
+
+def onEvent (c : Cfg) (s : St) (e : Event) : St :=
+  if accepts c e then { ch := apply s.ch e, q := s.q ++ [e.kind.full] } else s
+
+def pick (new cur : Option Nat) : Option Nat :=
+  match new with
+  | some d => some d
+  | none => cur
+
+/-- `initCh` on a non-nil `w.ch` -/
+def carry (b : Batch) : Batch := { gCur := pick b.gNew b.gCur, tCur := pick b.tNew b.tCur }
+
+/-- `getChangedObjects` -/
+def swap (s : St) : Batch × St := (s.ch, { s with ch := carry s.ch })
+
+/-- batches returned by the swaps of `ops`, oldest first, and the final state -/
+def runFrom (c : Cfg) : St → List Op → List Batch × St
+  | s, [] => ([], s)
+  | s, .ev e :: ops => runFrom c (onEvent c s e) ops
+  | s, .swap :: ops =>
+    let r := runFrom c (swap s).2 ops
+    ((swap s).1 :: r.1, r.2)
+
+def run (c : Cfg) (ops : List Op) : List Batch × St := runFrom c {} ops
+
+/-! ## specification side (what C14 demands), independent of the accumulator -/
+
+/-- the accepted events of each closed window (between two consecutive swaps), and the pending
+window after the last swap -/
+def windowsFrom (acc : Event → Bool) : List Event → List Op → List (List Event) × List Event
+  | w, [] => ([], w)
+  | w, .ev e :: ops => windowsFrom acc (if acc e then w ++ [e] else w) ops
+  | w, .swap :: ops =>
+    let r := windowsFrom acc [] ops
+    (w :: r.1, r.2)
+
+def windows (acc : Event → Bool) (ops : List Op) : List (List Event) × List Event :=
+  windowsFrom acc [] ops
+
+/-- how the controller must see the event: an object entering the controller's class is an
+add, one leaving it is a delete (of the old object) -/
+def specAct (e : Event) : Act :=
+  match e.typ with
+  | .create => .add
+  | .delete => .del
+  | .generic => .upd
+  | .update =>
+    if e.kind.fam.isSome then
+      if !e.vOld && e.vNew then .add else if e.vOld && !e.vNew then .del else .upd
+    else .upd
+
+def specEntry (e : Event) : Option Entry :=
+  match e.kind.fam with
+  | none => none
+  | some f =>
+    match e.typ with
+    | .generic => none
+    | .update =>
+      if !e.vOld && !e.vNew then none
+      else some ⟨f, specAct e, e.id, e.vOld && !e.vNew⟩
+    | _ => some ⟨f, specAct e, e.id, false⟩
+
+def specDescr (e : Event) : Descr := (specAct e, e.kind.res, fullName e)
+
+/-- events that set the global / TCP ConfigMap data -/
+def setsCm (g : Bool) (e : Event) : Bool :=
+  e.kind = .cm && (e.typ = .create || e.typ = .update) && cmSel e == some g
+
+/-- data the batch has to announce as `…New`: that of the last ConfigMap event of the window;
+a ConfigMap without data (nil map) must be announced as empty data (`some 0`), because a nil
+`…New` means "unchanged" to the converters -/
+def specNew (g : Bool) (w : List Event) : Option Nat :=
+  match (w.filter (setsCm g)).getLast? with
+  | none => none
+  | some e => some (e.data.getD 0)
+
+def isFlip (e : Event) : Bool :=
+  e.typ = .update && e.kind.fam.isSome && (e.vOld != e.vNew)
+
+/-- data of the last ConfigMap event of the window that sets the global/TCP data -/
+def lastSet (g : Bool) (w : List Event) : Option Event := (w.filter (setsCm g)).getLast?
+
+/-- first violated clause for one window and the batch that closed it.  The two clauses the
+current code is known to violate (`checkKnown`) are evaluated after all others so that they do not
+mask anything; here a class transition may carry any description prefix and an emptied ConfigMap
+may be announced as nil. -/
+def checkWindow (w : List Event) (b : Batch) : Option String :=
+  let evs := w.filter (·.typ ≠ .generic)
+  let cmOk (g : Bool) (new : Option Nat) : Bool :=
+    match lastSet g w with
+    | none => new.isNone
+    | some e => match e.data with
+      | some d => new == some d
+      | none => new.isNone || new == some 0
+  if evs.any (fun e => !(b.links.contains (linkOf e))) then some "event-lost-link"
+  else if evs.any (fun e => isFlip e && (match specEntry e with | some x => !(b.typed.contains x) | none => false)) then
+    some "class-transition-misclassified"
+  else if evs.any (fun e => match specEntry e with | some x => !(b.typed.contains x) | none => false) then
+    some "event-lost-entry"
+  else if evs.any (fun e => !isFlip e && !(b.objects.contains (specDescr e))) then some "event-lost-description"
+  else if evs.any (fun e => isFlip e && !(b.objects.any fun d => d.2 == linkOf e)) then some "event-lost-description"
+  else if b.typed.any (fun x => b.typed.count x ≠ 1) then some "event-duplicated"
+  else if b.links.any (fun x => b.links.count x ≠ 1) then some "event-duplicated-link"
+  else if b.objects.any (fun x => b.objects.count x ≠ 1) then some "event-duplicated-description"
+  else if b.typed.any (fun x => !(evs.any fun e => specEntry e == some x)) then some "event-phantom-entry"
+  else if b.links.any (fun x => !(evs.any fun e => linkOf e == x)) then some "event-phantom-link"
+  else if b.objects.any (fun x => !(evs.any fun e => specDescr e == x || (isFlip e && linkOf e == x.2))) then
+    some "event-phantom-description"
+  else if b.full ≠ w.any (fun e => e.typ = .generic || e.kind.full) then some "fullsync-flag-wrong"
+  else if !cmOk true b.gNew || !cmOk false b.tNew then some "configmap-data-wrong"
+  else none
+
+/-- the clauses the current code violates -/
+def checkKnown (w : List Event) (b : Batch) : Option String :=
+  let evs := w.filter (·.typ ≠ .generic)
+  if evs.any (fun e => isFlip e && !(b.objects.contains (specDescr e))) then
+    some "class-transition-described-as-update"
+  else if b.gNew ≠ specNew true w || b.tNew ≠ specNew false w then
+    some "configmap-emptied-update-not-delivered"
+  else none
+
+/-- chaining: `Cur` of a batch is the last delivered `New` before it -/
+def checkChain : Option Nat → Option Nat → List Batch → Bool
+  | _, _, [] => true
+  | g, t, b :: bs => b.gCur == g && b.tCur == t && checkChain (pick b.gNew g) (pick b.tNew t) bs
+
+def checkWindows (chk : List Event → Batch → Option String) : List (List Event) → List Batch → Option String
+  | [], [] => none
+  | w :: ws, b :: bs =>
+    match chk w b with
+    | some r => some r
+    | none => checkWindows chk ws bs
+  | _, _ => some "batch-count"
+
+/-- Spec evaluated on observed batches: `acc` = the events the real predicates accepted,
+`q` = the observed queue items -/
+def oracle (acc : Event → Bool) (ops : List Op) (bs : List Batch) (q : List Bool) : Option String :=
+  let ws := windows acc ops
+  match checkWindows checkWindow ws.1 bs with
+  | some r => some r
+  | none =>
+    if !checkChain none none bs then some "configmap-chain-broken"
+    else if q ≠ (ws.1.flatten ++ ws.2).map (·.kind.full) then some "notify-wrong"
+    else checkWindows checkKnown ws.1 bs
+
 end HapVerif.C14
